@@ -78,7 +78,8 @@ class CentrallyBin(Factory, Container):
             raise ValueError(f"entries ({entries}) cannot be negative")
         out = CentrallyBin(bins, None, None, nanflow)
         out.entries = float(entries)
-        out.bins = bins
+        # always a list of (center, container) tuples, whatever sequences were handed over (== compares it as such)
+        out.bins = [(c, v) for c, v in bins]
         return out.specialize()
 
     @staticmethod
